@@ -95,6 +95,11 @@ struct Cls {
     handle: Option<(usize, Option<(Ty, usize)>)>,
 }
 
+fn trace_on() -> bool {
+    static T: std::sync::OnceLock<bool> = std::sync::OnceLock::new();
+    *T.get_or_init(|| std::env::var("VERIF_C31_TRACE").is_ok())
+}
+
 pub fn sig_class(label: &str) -> &'static str {
     match label {
         "null" => "null",
@@ -508,6 +513,9 @@ impl<'a> Hist<'a> {
                 );
                 self.tainted = true;
             }
+        }
+        if trace_on() {
+            eprintln!("TRACE {} [{}] -> {:?} {} {}", f.name, labels.join(","), ret, outcome, if failed { self.last_error.as_str() } else { "" });
         }
         let class = format!("{}|{}|{}", f.name, labels.join(","), outcome);
         *self.classes.entry(class).or_insert(0) += 1;
